@@ -415,6 +415,7 @@ func (w *Proxy) checkC17() {
 		w.checkC17Retry(r)
 		// ---- effective timeout ----
 		w.checkC17Timeout(r)
+		w.checkC17TryTimeout(r)
 	}
 }
 
@@ -447,7 +448,7 @@ func (w *Proxy) retriable(up *peers.UpRec) (bool, string) {
 		return p.RetryOn, "its connection was terminated but retry_on is off"
 	}
 	switch up.Act.Kind {
-	case "reply", "", "twice", "unknown_id", "stale_id", "reply_close", "reply_connclose":
+	case "reply", "", "twice", "unknown_id", "stale_id", "reply_close", "reply_connclose", "goaway_reply":
 		if len(up.Sent) == 0 || w.connReset(up.ConnID) {
 			// its connection died under it (a neighbour's scripted close/reset on a shared
 			// connection) before the reply was sent or could arrive
@@ -514,10 +515,36 @@ func (w *Proxy) checkC17Retry(r *peers.ReqRec) {
 	}
 }
 
+// per-try timeout: an attempt whose upstream stays silent is given up after the configured per-try
+// timeout and — retry_on, budget left, the global timeout far away — followed by the next attempt
+func (w *Proxy) checkC17TryTimeout(r *peers.ReqRec) {
+	s, p := w.S, w.P
+	if !p.TryProbe || r.Extra["try_probe"] == "" || r.SentAt == 0 || r.ClientLeftAt > 0 || len(r.Replies) != 1 || len(r.Upstream) == 0 {
+		return
+	}
+	for _, f := range []string{"race:pertry_timer_parked_across_worker_step", "race:global_timer_before_retry", "race:response_parked_across_timer"} {
+		if s.Faults[f] > 0 {
+			return // the known retry / timer races of this run change the number of attempts on their own
+		}
+	}
+	try := time.Duration(p.TryMs) * time.Millisecond
+	n := 1 + p.NumRetries
+	w.Stats["c17_try_timeouts_probed"]++
+	if len(r.Upstream) < n {
+		s.Violate("C17", "per_try_timeout_not_applied", "req#%d: retry_on with num_retries=%d and a per-try timeout of %v (global timeout: route %dms), every upstream silent: %d attempt(s) reached upstreams instead of %d; the reply came %v after the request was sent", r.Idx, p.NumRetries, try, p.GlobalMs, len(r.Upstream), n, r.Replies[0].At-r.SentAt)
+		return
+	}
+	// every attempt runs for the per-try timeout (the timers follow one another), so the whole exchange
+	// takes n per-try timeouts plus the retry back-offs and the transport
+	if total := r.Replies[0].At - r.SentAt; total < time.Duration(n)*try-5*time.Millisecond || total > time.Duration(n)*(try+1500*time.Millisecond) {
+		s.Violate("C17", "per_try_timeout_wrong", "req#%d: %d attempts with a per-try timeout of %v each ended after %v", r.Idx, n, try, total)
+	}
+}
+
 // effective timeout: protocol-supplied, else request header, else route, else default
 func (w *Proxy) checkC17Timeout(r *peers.ReqRec) {
 	s, p := w.S, w.P
-	if !p.TimeoutProbe || len(r.Upstream) != 1 || r.Upstream[0].Act.Kind != "never" || len(r.Replies) != 1 || r.Replies[0].Tok != "" {
+	if !p.TimeoutProbe || p.TryProbe || len(r.Upstream) != 1 || r.Upstream[0].Act.Kind != "never" || len(r.Replies) != 1 || r.Replies[0].Tok != "" {
 		return
 	}
 	eff, src := 60*time.Second, "default"
@@ -570,7 +597,9 @@ func (w *Proxy) connClosedByPeer(id int, self *peers.UpRec) bool {
 				continue
 			}
 			switch up.Act.Kind {
-			case "reset", "close", "half_close", "reply_close", "reply_connclose", "garbage_reply", "corrupt_reply":
+			case "reset", "close", "half_close", "reply_close", "reply_connclose", "garbage_reply", "corrupt_reply", "half":
+				// ("half": the upstream stalls in the middle of a frame; it answers no heartbeat any more and
+				// MOSN's keep-alive closes the connection after its failures — a termination as well)
 				return true
 			}
 		}
